@@ -353,6 +353,12 @@ func (d *Decoder) scan(data []byte, atEOF bool) (advance int, token []byte, err 
 	switch l := startsBlockQuote(data); {
 	case l > 0 && !d.quoteStarted:
 		// If we haven't yet consumed our block quote start token, do so.
+		// The token includes all the white space after the '>'. If that white space
+		// reaches the end of the buffer, or the buffer ends inside a rune, the
+		// token may be longer than what we can see, so request more data.
+		if !atEOF && !utf8.FullRune(data[l:]) {
+			return 0, nil, nil
+		}
 		d.mask |= BlockQuote | BlockQuoteStart
 		d.clearMask |= BlockQuoteStart
 		// Setup the inner parser if we haven't done so already.
